@@ -71,6 +71,56 @@ impl Scalar for f64 {
     }
 }
 
+/// Magnitude scalar: every operation replaced by its absolute-value counterpart, so that the result
+/// bounds every partial sum the real kernel can form (used to decide exactness of integer data).
+#[derive(Clone, Copy, Debug)]
+pub struct AbsF(pub f64);
+
+impl Scalar for AbsF {
+    fn c(x: f64) -> AbsF {
+        AbsF(x.abs())
+    }
+    fn val(self) -> f64 {
+        self.0
+    }
+    fn add(self, o: AbsF) -> AbsF {
+        AbsF(self.0 + o.0)
+    }
+    fn sub(self, o: AbsF) -> AbsF {
+        AbsF(self.0 + o.0)
+    }
+    fn mul(self, o: AbsF) -> AbsF {
+        AbsF(self.0 * o.0)
+    }
+    fn div(self, o: AbsF) -> AbsF {
+        AbsF(self.0 / o.0)
+    }
+    fn neg(self) -> AbsF {
+        self
+    }
+    fn scale(self, k: f64) -> AbsF {
+        AbsF(self.0 * k.abs())
+    }
+    fn ln(self) -> AbsF {
+        AbsF(self.0.ln().abs())
+    }
+    fn exp(self) -> AbsF {
+        AbsF(self.0.exp())
+    }
+    fn powf(self, p: f64) -> AbsF {
+        AbsF(self.0.powf(p))
+    }
+    fn recip(self) -> AbsF {
+        AbsF(1.0 / self.0)
+    }
+    fn relu(self) -> AbsF {
+        self
+    }
+    fn sigmoid(self) -> AbsF {
+        AbsF(1.0)
+    }
+}
+
 /// Dual number with one tangent direction `d`, plus `a`: the same tangent propagated with the
 /// absolute values of all local partials (the "every term replaced by its absolute value"
 /// magnitude used to scale tolerances and to decide whether integer data stays exact).
